@@ -121,6 +121,8 @@ class CanonicalEvolutionDesigner(vza.PartiallySerializableDesigner,
                                  Generic[_PopulationType, _OffspringsType]):
   """Evolution algorithm template."""
 
+  _metadata_ns: str = 'evolution_designer'  # class-level constant.
+
   def __init__(
       self,
       converter: PopulationConverter[_PopulationType, _OffspringsType],
@@ -194,7 +196,25 @@ class CanonicalEvolutionDesigner(vza.PartiallySerializableDesigner,
     self._population = self._survival.select(candidates)
 
   def load(self, metadata: vz.Metadata):
-    self._population = type(self._population).recover(metadata)
+    population = type(self._population).recover(metadata)
+    # The number of trials seen decides whether `suggest()` samples or mutates
+    # (and is what `adaptation_callable` receives), so it is part of the state.
+    # A state dumped before the counter was saved leaves it unchanged.
+    try:
+      num_trials_seen = metadata.ns(self._metadata_ns).get(
+          'num_trials_seen', self._num_trials_seen, cls=int
+      )
+    except ValueError as e:
+      raise serializable.HarmlessDecodeError(
+          'Failed to recover the number of trials seen.'
+      ) from e
+    self._population = population
+    self._num_trials_seen = num_trials_seen
 
   def dump(self) -> vz.Metadata:
-    return self._population.dump()
+    metadata = vz.Metadata()
+    metadata.attach(self._population.dump())
+    metadata.ns(self._metadata_ns)['num_trials_seen'] = str(
+        self._num_trials_seen
+    )
+    return metadata
